@@ -489,6 +489,34 @@ func caseC09(r *rand.Rand, cw *CalcWriter, label string, maxT int) {
 	names := tipNamesN("t", nt)
 	n := 1 + r.Intn(8)
 	coll := collection(r, &gp, names, n, true)
+	// lengths: every tree carries all of them (most cases); none does (a collection of topologies); or some trees / some
+	// branches do not (the mean is then over the trees that give the split a length)
+	lenKind := r.Intn(12)
+	var strip func(s *STree, root bool, p float64)
+	strip = func(s *STree, root bool, p float64) {
+		if !root && r.Float64() < p {
+			s.Len = NILU
+		}
+		for _, c := range s.Ch {
+			strip(c, false, p)
+		}
+	}
+	mixed := false
+	switch lenKind {
+	case 0:
+		for _, s := range coll {
+			strip(s, true, 1)
+		}
+	case 1:
+		if n >= 2 {
+			mixed = true
+			for i, s := range coll {
+				if i%2 == 1 {
+					strip(s, true, []float64{1, 0.4}[r.Intn(2)])
+				}
+			}
+		}
+	}
 	rootedInputs := r.Intn(3) == 0
 	var ts []*tree.Tree
 	for _, s := range coll {
@@ -523,6 +551,9 @@ func caseC09(r *rand.Rand, cw *CalcWriter, label string, maxT int) {
 		leaf.Name = "zz_other"
 		ts[i] = present(r, s, 0)
 		kind = "ConsensusBadTaxa"
+	}
+	if mixed && kind == "Consensus" {
+		kind = "ConsensusMixedLengths"
 	}
 	cutoff := float64(cut[0]) / float64(cut[1])
 	ev := &CEvent{Kind: kind, Prop: "C09", Case: label, Trees: projAll(ts, ProjOpt{}),
